@@ -5,6 +5,7 @@ from jaxtyping import Float
 from torch import Tensor
 
 from linear_operator.operators._linear_operator import LinearOperator
+from linear_operator.utils.generic import _to_helper
 
 
 class AbstractPermutationLinearOperator(LinearOperator):
@@ -45,6 +46,16 @@ class AbstractPermutationLinearOperator(LinearOperator):
     def dtype(self) -> Optional[torch.dtype]:
         return self._dtype
 
+    # A permutation has no floating point data: its dtype (the dtype of to_dense()) is a constructor argument, which the
+    # generic type() / to() - they convert the tensor arguments - would leave unchanged.
+    def type(self: LinearOperator, dtype: torch.dtype) -> LinearOperator:
+        return self.__class__(*self._args, **{**self._kwargs, "dtype": dtype})
+
+    def to(self: LinearOperator, *args, **kwargs) -> LinearOperator:
+        device, dtype = _to_helper(*args, **kwargs)
+        res = super().to(device=device)
+        return res if dtype is None else res.type(dtype)
+
 
 class PermutationLinearOperator(AbstractPermutationLinearOperator):
     r"""LinearOperator that lazily represents a permutation matrix with O(n) memory.
@@ -66,6 +77,7 @@ class PermutationLinearOperator(AbstractPermutationLinearOperator):
         perm: Tensor,
         inv_perm: Optional[Tensor] = None,
         validate_args: bool = True,
+        dtype: Optional[torch.dtype] = None,
     ):
         if not isinstance(perm, Tensor):
             raise ValueError("perm is not a Tensor.")
@@ -92,8 +104,8 @@ class PermutationLinearOperator(AbstractPermutationLinearOperator):
 
         self.perm = perm
         self.inv_perm = inv_perm
-        self._dtype = torch.float32
-        super().__init__(perm, inv_perm, validate_args=validate_args)
+        self._dtype = dtype or torch.float32
+        super().__init__(perm, inv_perm, validate_args=validate_args, dtype=self._dtype)
 
     def _matmul(
         self: Float[LinearOperator, "*batch M N"],
@@ -132,7 +144,7 @@ class PermutationLinearOperator(AbstractPermutationLinearOperator):
         return torch.Size((*self.perm.shape, self.perm.shape[-1]))
 
     def _transpose_nonbatch(self: Float[LinearOperator, "*batch M N"]) -> Float[LinearOperator, "*batch N M"]:
-        return PermutationLinearOperator(perm=self.inv_perm, inv_perm=self.perm, validate_args=False)
+        return PermutationLinearOperator(perm=self.inv_perm, inv_perm=self.perm, validate_args=False, dtype=self._dtype)
 
     def to_sparse(self) -> Tensor:
         """Returns a sparse CSR tensor that represents the PermutationLinearOperator."""
@@ -157,14 +169,14 @@ class TransposePermutationLinearOperator(AbstractPermutationLinearOperator):
             the permutation matrix that the operator represents is then `n = m^2`.
     """
 
-    def __init__(self, m: int):
+    def __init__(self, m: int, dtype: Optional[torch.dtype] = None):
         if m < 1:
             raise ValueError(f"m = {m} has to be a positive integer.")
-        super().__init__(m=m)
+        dtype = dtype or torch.float32
+        super().__init__(m=m, dtype=dtype)
         self.n = m * m  # size of implicitly represented linear operator
         self.m = m  # (m, m) is size of the reshaped input which is transposed
-        # self._dtype = type(m)
-        self._dtype = torch.float32
+        self._dtype = dtype
 
     def _matmul(
         self: Float[LinearOperator, "*batch M N"],
@@ -182,11 +194,6 @@ class TransposePermutationLinearOperator(AbstractPermutationLinearOperator):
     @property
     def dtype(self) -> Optional[torch.dtype]:
         return self._dtype
-
-    def type(self: LinearOperator, dtype: torch.dtype) -> LinearOperator:
-        res = TransposePermutationLinearOperator(self.m)
-        res._dtype = dtype
-        return res
 
     @property
     def device(self) -> Optional[torch.device]:
